@@ -252,6 +252,20 @@ func (st *ccState) start() {
 				st.rx[n-1].doneSeq = s.Seq()
 			}
 		}
+		st.conn.OnWriteFail = func(b []byte, to net.Addr) {
+			// a write deadline the client set itself expired before the write began (a stalled
+			// task between SetWriteDeadline and WriteTo): a write failure like an injected one
+			if cfg.raw && len(b) >= 28 {
+				b = b[28:]
+			}
+			if c := st.callOf(b); c != nil {
+				s.Fault("write-deadline-expired")
+				tx := &txRec{t: s.Now(), failed: true}
+				tx.invSeq = s.Seq()
+				tx.seq = s.Ev("tx.fail", c.id, 0, "write deadline", nil)
+				c.txs = append(c.txs, tx)
+			}
+		}
 		st.conn.WriteErr = st.writeErr
 		if cfg.raw {
 			st.conn.WriteErr = func(b []byte, to net.Addr) error {
@@ -406,6 +420,12 @@ func (st *ccState) doCall(ci int, sp callSpec, attempt int, nth int) *ccCall {
 			rule := "T1-bound"
 			if cfg.mode == modeRetry {
 				rule = "S-total"
+			}
+			if cfg.mode == modeRouting {
+				// how long a call may take is C11's clause (and C12's): a change that breaks only
+				// that must not be reported against C10. The run is cut, not judged.
+				s.Truncate("run-cut: a call outlived its retry schedule (C11's clause, judged there)")
+				return
 			}
 			s.Abort(rule, "call %d (T=%v tries=%d) has still not returned %v after it was invoked: its retry schedule ends at +%v", c.id, cfg.T, cfg.tries, limit, st.bound(c))
 		})
